@@ -47,6 +47,7 @@ SameBag(a, b) ==
 RECURSIVE Match(_, _)
 Match(e, o) ==
   CASE e.t = "any" -> TRUE
+    [] e.t = "blocks" -> TRUE      \* the reply comes later: checked when the client is served / times out
     [] e.t = "oneof" -> \E x \in e.v : Match(x, o)
     [] e.t = "err" -> o.t = "err"
     [] e.t = "intrange" ->
@@ -88,6 +89,30 @@ Match(e, o) ==
          /\ \A i \in 1..Len(o.v) : o.v[i].t = "bulk"
          /\ {o.v[2 * i - 1].v : i \in 1..(Len(o.v) \div 2)} = DOMAIN e.v
          /\ \A i \in 1..(Len(o.v) \div 2) : o.v[2 * i].v = e.v[o.v[2 * i - 1].v]
+    [] e.t = "flds" ->
+         (* stream entry fields (Streams.tla): flat array f1 v1 f2 v2 ..., the <<field, value>> pairs form a bag *)
+         /\ o.t = "arr"
+         /\ Len(o.v) = 2 * Len(e.v)
+         /\ \A i \in 1..Len(o.v) : o.v[i].t = "bulk"
+         /\ SameBag(e.v, [i \in 1..Len(e.v) |-> <<o.v[2 * i - 1].v, o.v[2 * i].v>>])
+    [] e.t = "pendext" ->
+         (* XPENDING extended rows [id, consumer, idle ms, deliveries]; e.v = <<id, consumer, deliveries>> triples *)
+         /\ o.t = "arr"
+         /\ Len(o.v) = Len(e.v)
+         /\ \A i \in 1..Len(o.v) :
+              /\ o.v[i].t = "arr" /\ Len(o.v[i].v) = 4
+              /\ o.v[i].v[1].t = "bulk" /\ o.v[i].v[2].t = "bulk" /\ o.v[i].v[4].t = "int"
+              /\ o.v[i].v[3].t = "int" /\ IsLooseInt(o.v[i].v[3].v) /\ ~ParseBig(o.v[i].v[3].v).neg
+         /\ LET got == [i \in 1..Len(o.v) |-> <<o.v[i].v[1].v, o.v[i].v[2].v, o.v[i].v[4].v>>]
+            IN IF e.ordered THEN got = e.v ELSE SameBag(e.v, got)
+    [] e.t = "pendcons" ->
+         (* XPENDING summary consumer list: pairs [name, count] in any order; e.v = <<name, decimal count>> pairs *)
+         /\ o.t = "arr"
+         /\ Len(o.v) = Len(e.v)
+         /\ \A i \in 1..Len(o.v) :
+              /\ o.v[i].t = "arr" /\ Len(o.v[i].v) = 2 /\ o.v[i].v[1].t = "bulk"
+              /\ o.v[i].v[2].t = "bulk" \/ (e.intOK /\ o.v[i].v[2].t = "int")
+         /\ SameBag(e.v, [i \in 1..Len(o.v) |-> <<o.v[i].v[1].v, o.v[i].v[2].v>>])
     [] OTHER -> e = o
 
 =============================================================================
